@@ -1,5 +1,6 @@
 import Cssv.EquivDB
 import Cssv.Prune
+import Cssv.IterPrune
 /-! Prototype 2: the searcher engine with the full equivalence database and the `search`
 (has_specification) transition (C04/C05/C14/C17). Reuses Flags, RuleOut, Universe, EDB, CDB, Event,
 packOf, sortNat, … from `Cssv.Engine`. -/
@@ -174,6 +175,15 @@ def rulesUpToEq (s : St) : EqDB × List RuleK :=
 def search (s : St) (rootLabel : Nat) : St × Bool :=
   let (eq, rd) := rulesUpToEq s
   let pr := prune rd
+  let ks := keys pr
+  let eq := ks.foldl (fun (eq : EqDB) k => eq.setVerified k) eq
+  ({ s with eq := eq }, ks.contains (eq.uf.find rootLabel))
+
+/-- `has_specification()` for an iterative pack. As in the code (`base.py:73`), the label — not its
+representative — is passed as the pre-verified root (finding F1). -/
+def searchIter (s : St) (rootLabel : Nat) : St × Bool :=
+  let (eq, rd) := rulesUpToEq s
+  let pr := iterPrune rd rootLabel
   let ks := keys pr
   let eq := ks.foldl (fun (eq : EqDB) k => eq.setVerified k) eq
   ({ s with eq := eq }, ks.contains (eq.uf.find rootLabel))
